@@ -587,7 +587,7 @@ func (c *converter) SliceInstantiation(values []string, valueUsed bool) (string,
 	helper := c.nextHelperVar()
 	c.VarAssignment(helper, "_dv!_dvc!", false)
 
-	c.sliceAssignmentHelperRequired = true
+	c.sliceLenSetHelperRequired = true
 	c.callFunc(sliceLenSetHelper, []string{}, c.varEvaluationString(helper, false), strconv.Itoa(len(values)))
 
 	// Init slice values.
